@@ -348,7 +348,28 @@ func (e *Engine) visit(fr *frame, instr ssa.Instruction) (jump bool, ret bool) {
 	case *ssa.Convert:
 		fr.env[instr] = e.conv(instr.Type(), instr.X.Type(), fr.get(instr.X))
 	case *ssa.SliceToArrayPointer:
-		unsup("SliceToArrayPointer")
+		// (*[n]T)(s): a pointer to an array sharing the slice's backing store
+		n := int(deref(instr.Type()).Underlying().(*types.Array).Len())
+		switch x := fr.get(instr.X).(type) {
+		case []value:
+			if len(x) < n {
+				panic(targetPanic{"slice to array pointer: slice too short"})
+			}
+			p := new(value)
+			if n == 0 && x == nil {
+				fr.env[instr] = (*value)(nil)
+				break
+			}
+			*p = array(x[:n:n])
+			fr.env[instr] = p
+		case nil:
+			if n != 0 {
+				panic(targetPanic{"slice to array pointer: slice too short"})
+			}
+			fr.env[instr] = (*value)(nil)
+		default:
+			unsup("SliceToArrayPointer on %T", x)
+		}
 	case *ssa.MakeInterface:
 		fr.env[instr] = iface{t: instr.X.Type(), v: fr.get(instr.X)}
 	case *ssa.Extract:
